@@ -24,11 +24,16 @@ type nsFloodScenario struct {
 	MaxDup    int        `json:"max_dup"`    // duplicated deliveries allowed in a history
 	MaxExpire int        `json:"max_expire"` // seen-cache expiries allowed in a history
 	MaxHops   int        `json:"max_hops,omitempty"`
+	LateEdges [][2]int   `json:"late_edges,omitempty"` // links that come up during the history (event c:<k>) -> full-table replay
 	History   []string   `json:"history,omitempty"`
 }
 
 func (sc nsFloodScenario) String() string {
-	return fmt.Sprintf("n=%d edges=%v exits=%v ann=%d dup=%d exp=%d", sc.N, sc.Edges, sc.Exits, sc.Announces, sc.MaxDup, sc.MaxExpire)
+	s := fmt.Sprintf("n=%d edges=%v exits=%v ann=%d dup=%d exp=%d", sc.N, sc.Edges, sc.Exits, sc.Announces, sc.MaxDup, sc.MaxExpire)
+	if len(sc.LateEdges) > 0 {
+		s += fmt.Sprintf(" late=%v", sc.LateEdges)
+	}
+	return s
 }
 
 // nsFloodBuild builds the mesh of the scenario (links connected in edge order) and replays hist.
@@ -55,6 +60,11 @@ func nsFloodBuild(sc nsFloodScenario, hist []string) (*nsNet, error) {
 		net.connect(e[0], e[1])
 	}
 	for _, ev := range hist {
+		if ev[0] == 'c' {
+			k, _ := strconv.Atoi(ev[2:])
+			net.connect(sc.LateEdges[k][0], sc.LateEdges[k][1])
+			continue
+		}
 		if err := nsFloodApply(net, ev); err != nil {
 			net.close()
 			return nil, fmt.Errorf("event %s: %w", ev, err)
@@ -118,6 +128,11 @@ func nsFloodEnabled(sc nsFloodScenario, net *nsNet, hist []string) []string {
 	if exps < sc.MaxExpire {
 		for i := 0; i < sc.N; i++ {
 			evs = append(evs, fmt.Sprintf("e:%d", i))
+		}
+	}
+	for k, e := range sc.LateEdges {
+		if !net.linked(e[0], e[1]) {
+			evs = append(evs, fmt.Sprintf("c:%d", k))
 		}
 	}
 	return evs
